@@ -143,7 +143,7 @@ fn check_tape(tape: &[u8], gates: &Gates, stats: &mut Stats, counting: bool) -> 
     // characters that old tools and byte-level shortcuts treat specially (end-of-file marker, NUL,
     // DEL, no-break space, a BOM that is not at the start, form feed, line separators) at the very
     // end, at the very start or in the middle of the text
-    const SPECIAL: &[char] = &['\u{1a}', '\u{0}', '\u{7f}', '\u{a0}', '\u{feff}', '\u{c}', '\u{b}', '\u{2028}', '\u{201a}', '\u{1b}'];
+    const SPECIAL: &[char] = &['\u{1a}', '\u{0}', '\u{7f}', '\u{a0}', '\u{feff}', '\u{c}', '\u{b}', '\u{2028}', '\u{201a}', '\u{1b}', '\u{fffd}', '\u{fffe}', '\u{ffff}', '\u{d7ff}', '\u{e000}', '\u{10ffff}', '\u{1f600}', '\u{85}', '\u{81}'];
     if choice.ratio(1, 4) {
         let c = *choice.pick(SPECIAL);
         match choice.below(4) {
